@@ -298,7 +298,8 @@ func (s *sub) sendSubscribe(ctx context.Context) (string, *RPCError) {
 	reqID := s.rc.addInflightSub(s)
 	rpcReq.ID = fftypes.JSONAnyPtr(`"` + reqID + `"`)
 
-	return reqID, s.rc.sendRPC(ctx, s.pendingReqID, rpcReq)
+	// use the local copy: s.pendingReqID is updated under the lock by a concurrent reconnect
+	return reqID, s.rc.sendRPC(ctx, reqID, rpcReq)
 }
 
 func (s *sub) LocalID() *fftypes.UUID {
